@@ -71,6 +71,11 @@ func (sdp *SizeDataPacker) PackDataInChunks(data [][]byte, limit int) ([][]byte,
 				if isMarshaledBuffTooLarge {
 					returningBuff = append(returningBuff, marshaledElements)
 					elements = make([][]byte, 0)
+				} else {
+					// the new chunk starts with this element: remember its marshaled form, it is what gets
+					// flushed if the next element does not fit
+					lastMarshalized = marshaledElements
+					continue
 				}
 			}
 
